@@ -1,7 +1,9 @@
 ------------------------------ MODULE Cylinder ------------------------------
 (* The solid cylinder of scippneutron.absorption as a state machine.                          *)
 (*                                                                                            *)
-(* State: a description `cyl` of the solid, a probe point `pt`, and (after Shoot) a ray.       *)
+(* State: a description `cyl` of the solid, a probe point `pt`, and (after Shoot) a ray together  *)
+(* with `mem`, the pointwise membership Inside(s + (j/K) n), j = 0..J, of sampled ray points,  *)
+(* and `sum`, what the closed form says about the ray (RaySummary).                             *)
 (* Actions = the operations the property quantifies over:                                      *)
 (*   Rotate(q), Translate(tau)  move sample and probe point together rigidly                  *)
 (*   OtherEnd                   re-describe the same solid from its other end                 *)
@@ -30,8 +32,8 @@ CONSTANTS AxisQuats,   \* quaternions whose rotation takes e_z to the initial ax
           K, J,        \* sampling of the ray parameter: t = j/K, j = 0..J
           Bug          \* "none" | "otherend_keeps_axis" | "noclip"  (negative controls)
 
-VARIABLES cyl, pt, ins0, ray, moves, skew
-vars == <<cyl, pt, ins0, ray, moves, skew>>
+VARIABLES cyl, pt, ins0, ray, mem, sum, moves, skew
+vars == <<cyl, pt, ins0, ray, mem, sum, moves, skew>>
 
 NoRay == [s |-> <<0, 0, 0, 1>>, n |-> <<0, 0, 0, 1>>]
 HasRay == IsUnit(ray.n)
@@ -41,6 +43,8 @@ Init == /\ \E q \in AxisQuats, b \in Bases, r \in Radii, h \in Heights : cyl = M
         /\ pt \in Points
         /\ ins0 = Inside(cyl, pt)
         /\ ray = NoRay
+        /\ mem = <<>>
+        /\ sum = [cls |-> "none"]
         /\ moves = 0
         /\ skew = 0
 
@@ -51,14 +55,14 @@ Rotate(q, isSkew) ==
     /\ pt' = MovePt(q, Origin, pt)
     /\ moves' = moves + 1
     /\ skew' = IF isSkew THEN 1 ELSE skew
-    /\ UNCHANGED <<ins0, ray>>
+    /\ UNCHANGED <<ins0, ray, mem, sum>>
 
 Translate(tau) ==
     /\ ~HasRay /\ moves < MaxMoves
     /\ cyl' = MoveCyl(<<1, 0, 0, 0>>, tau, cyl)
     /\ pt' = MovePt(<<1, 0, 0, 0>>, tau, pt)
     /\ moves' = moves + 1
-    /\ UNCHANGED <<ins0, ray, skew>>
+    /\ UNCHANGED <<ins0, ray, mem, sum, skew>>
 
 OtherEnd ==
     /\ ~HasRay /\ moves < MaxMoves
@@ -66,11 +70,13 @@ OtherEnd ==
               THEN [OtherEndCyl(cyl) EXCEPT !.m = cyl.m]
               ELSE OtherEndCyl(cyl)
     /\ moves' = moves + 1
-    /\ UNCHANGED <<pt, ins0, ray, skew>>
+    /\ UNCHANGED <<pt, ins0, ray, mem, sum, skew>>
 
 Shoot(s, n) ==
     /\ ~HasRay /\ moves = 0
     /\ ray' = [s |-> s, n |-> n]
+    /\ mem' = [i \in 1..(J + 1) |-> Inside(cyl, RayPoint([s |-> s, n |-> n], i - 1, K))]
+    /\ sum' = RaySummary(cyl, [s |-> s, n |-> n])
     /\ pt' = Origin
     /\ ins0' = Inside(cyl, Origin)
     /\ UNCHANGED <<cyl, moves, skew>>
@@ -79,7 +85,7 @@ Next == \/ \E q \in CubeQuats : Rotate(q, FALSE)
         \/ \E q \in SkewQuats : Rotate(q, TRUE)
         \/ \E tau \in Shifts : Translate(tau)
         \/ OtherEnd
-        \/ \E s \in Starts, n \in Dirs : Shoot(s, n)
+        \/ (~HasRay /\ moves = 0 /\ \E s \in Starts, n \in Dirs : Shoot(s, n))   \* guard first: terminal states do not enumerate rays
 
 Spec == Init /\ [][Next]_vars
 
@@ -90,50 +96,44 @@ FrameOK == /\ IsRotation(cyl.m, cyl.k)
 
 InsideInvariant == Inside(cyl, pt) = ins0
 
-(* closed version of the hit interval (single touching points kept) *)
-ClosedHit(sq) ==
-    LET P == RayParts(cyl, ray)
-        I == Inter(SlabIv(cyl, P), CylIv(cyl, P, sq))
-    IN IF I.kind = "none" THEN None
-       ELSE LET lo == RMax(I.lo, RZero) IN IF RLe(lo, I.hi) THEN Iv(lo, I.hi) ELSE None
+Sum == sum     \* RaySummary(cyl, ray), evaluated once by Shoot: class, exactness, length, inner / closed outer interval
 
 ChordSandwich ==
     HasRay =>
-      LET inner == InnerIv(cyl, ray)
-          outer == ClosedHit(SqHi(cyl, ray))
+      LET S == Sum
       IN \A j \in 0..J :
            LET t == <<j, K>>
-               ins == Inside(cyl, RayPoint(ray, j, K))
-           IN /\ InIv(inner, t) => ins
-              /\ ins => InIv(outer, t)
+               ins == mem[j + 1]
+           IN /\ InIv(S.inner, t) => ins
+              /\ ins => InIv(S.closedOuter, t)
 
 (* the length the specification reports (negative control "noclip": not clipped to t >= 0) *)
-SpecLength ==
+SpecLength(S) ==
     IF Bug = "noclip"
     THEN LET P == RayParts(cyl, ray)
-             I == Inter(SlabIv(cyl, P), CylIv(cyl, P, SqLo(cyl, ray)))
+             I == Inter(SlabIv(cyl, P), CylIv(cyl, P, SqLoP(P)))
          IN IF I.kind = "iv" /\ RLt(I.lo, I.hi) THEN RSub(I.hi, I.lo) ELSE RZero
-    ELSE PathLength(cyl, ray)
+    ELSE S.len
 
-SampleCount == Cardinality({j \in 0..J : Inside(cyl, RayPoint(ray, j, K))})
+SampleCount == Cardinality({j \in 0..J : mem[j + 1]})
 
 (* a closed interval of length L contains between floor(L K) and floor(L K)+1 points j/K, as long *)
 (* as the samples reach beyond its end; checked where the length is rational                      *)
 LengthIsMeasure ==
-    (HasRay /\ ExactCase(cyl, ray)) =>
-      LET L == SpecLength
-          cnt == SampleCount
-          hit == InnerIv(cyl, ray)
-          covered == hit.kind = "none" \/ RLt(hit.hi, <<J, K>>)
-      IN covered =>
-           /\ (cnt - 1) * L[2] <= L[1] * K           \* (cnt-1)/K <= L
-           /\ L[1] * K < (cnt + 1) * L[2]            \* L < (cnt+1)/K
+    HasRay =>
+      LET S == Sum
+          L == SpecLength(S)
+          covered == S.inner.kind = "none" \/ RLt(S.inner.hi, <<J, K>>)
+      IN (S.exact /\ covered) =>
+           LET cnt == SampleCount
+           IN /\ (cnt - 1) * L[2] <= L[1] * K           \* (cnt-1)/K <= L
+              /\ L[1] * K < (cnt + 1) * L[2]            \* L < (cnt+1)/K
 
 ClassOK ==
     HasRay =>
-      LET cls == RayClass(cyl, ray)
-      IN /\ cls \in RayClasses \cup {"undecided"}
-         /\ (cls \in ZeroClasses /\ ExactCase(cyl, ray)) => PathLength(cyl, ray) = RZero
-         /\ (cls \in {"from_inside", "from_outside", "parallel_hit"}) => RLt(RZero, LenOf(InnerIv(cyl, ray)))
-         /\ (cls = "from_inside") => Inside(cyl, ray.s)
+      LET S == Sum
+      IN /\ S.cls \in RayClasses \cup {"undecided"}
+         /\ (S.cls \in ZeroClasses /\ S.exact) => S.len = RZero
+         /\ (S.cls \in {"from_inside", "from_outside", "parallel_hit"}) => RLt(RZero, S.len)
+         /\ (S.cls = "from_inside") => Inside(cyl, ray.s)
 =============================================================================
